@@ -131,25 +131,24 @@ Proof.
   assert (Nvx : v <> x) by (intros ->; apply (FV x); [constructor|auto]).
   assert (TREE : forall y, reach h r y -> y <> v) by (intros y Ry ->; apply (FV v); [constructor|auto]).
   unfold loop_setitem_int, node_setitem_int in H.
-  unfold bind at 1 in H. rewrite bind_modn in H. set (h1 := upd h v (set_parent (Some x))) in *.
-  assert (Gx1 : get h1 x = Some nx) by (unfold h1; rewrite get_upd_other; auto).
-  rewrite (bind_getn x nx _ h1 Gx1) in H. rewrite bind_modn in H.
+  unfold bind at 1 in H. rewrite (bind_getn x nx _ h Gx) in H.
   set (len := Z.of_nat (length (children nx))) in *.
-  set (pv := if (idx <? 0)%Z then (idx + len)%Z else idx) in *.
-  set (h2 := upd h1 v (set_pidx (Some pv))) in *.
+  destruct (py_index len idx) as [i|] eqn:PI.
+  2:{ unfold raise in H. inversion H; subst. exact I. }
+  rewrite bind_modn in H. set (h1 := upd h v (set_parent (Some x))) in *.
+  rewrite bind_modn in H.
+  pose (pv := i).
+  set (h2 := upd h1 v (set_pidx (Some i))) in *.
   assert (G2v : get h2 v = Some (set_pidx (Some pv) (set_parent (Some x) nv))).
   { unfold h2. apply get_upd_same. unfold h1. now apply get_upd_same. }
   assert (O2 : forall y, y <> v -> get h2 y = get h y) by (intros; unfold h2, h1; rewrite !get_upd_other; auto).
-  destruct (py_index len idx) as [i|] eqn:PI.
-  2:{ inversion H; subst. eapply Inv_frame; [|exact I]. intros y Ry. apply O2. auto. }
   assert (Ij : (0 <= i < len)%Z /\ pv = i).
-  { unfold py_index in PI. unfold pv.
+  { split; [|reflexivity]. unfold py_index in PI.
     destruct ((0 <=? idx)%Z && (idx <? len)%Z) eqn:E1.
-    - inversion PI; subst. apply andb_prop in E1 as (A1 & A2). apply Z.leb_le in A1. apply Z.ltb_lt in A2.
-      assert ((i <? 0)%Z = false) by (apply Z.ltb_ge; lia). rewrite H0. lia.
+    - inversion PI; subst. apply andb_prop in E1 as (A1 & A2). apply Z.leb_le in A1. apply Z.ltb_lt in A2. lia.
     - destruct ((- len <=? idx)%Z && (idx <? 0)%Z) eqn:E2; [|discriminate].
-      inversion PI; subst. apply andb_prop in E2 as (A1 & A2). apply Z.leb_le in A1. rewrite A2. apply Z.ltb_lt in A2. lia. }
-  destruct Ij as (Ri & Epv). set (j := Z.to_nat i) in *.
+      inversion PI; subst. apply andb_prop in E2 as (A1 & A2). apply Z.leb_le in A1. apply Z.ltb_lt in A2. lia. }
+  destruct Ij as (Ri & Epv). clearbody pv. set (j := Z.to_nat i) in *.
   assert (Lj : (j < length (children nx))%nat) by (unfold j, len in *; lia).
   destruct (nth_error (children nx) j) as [o|] eqn:No; [|apply nth_error_None in No; lia].
   set (new := set_nth (children nx) j v) in *.
